@@ -420,6 +420,7 @@ def run(ctx):
         raise RuntimeError(f'NumF elementary functions off by {worst} relative')
 
     it = iter(model_rows)
+    worst_dev = [0.0]
     for c, rec, has_duck in meta:
         m_nli = parse_row(next(it))
         m_phys = parse_row(next(it))
@@ -435,6 +436,8 @@ def run(ctx):
             if len(impl) != len(model):
                 return f'{what}: {len(impl)} values vs {len(model)}'
             for i, (a, b) in enumerate(zip(impl, model)):
+                if a == a and b == b and max(abs(a), abs(b)) > 0:
+                    worst_dev[0] = max(worst_dev[0], abs(a - b) / max(abs(a), abs(b)))
                 if not close(a, b, TOL):
                     return f'{what}: channel {i} implementation {a!r} model {b!r} (rel {abs(a - b) / max(abs(a), 1e-300):.3g})'
             return None
@@ -446,6 +449,7 @@ def run(ctx):
             ctx.corr_break('corr:GN.fiber_nli', '; '.join(x for x in (d, dphys) if x), strip(c),
                            impl=None if isinstance(rec['out'], str) else rec['out'][:8],
                            model=None if isinstance(m_nli, str) else m_nli[:8])
+    ctx.extra['max_rel_deviation_model_vs_gnpy'] = worst_dev[0]
     ctx.assumptions += [
         'NumF (binary64 with Gallina exp/ln/asinh/10^x/log10) approximates NumR: not proved; checked against libm on '
         'random points in every run (max relative error recorded in coverage.numf_selftest) and absorbed by the 1e-7 tolerance',
